@@ -407,9 +407,13 @@ func c13(c *Ctx) {
 	// the same for the decision under the write lock: a watch is left alone only when it exists AND its informer is active
 	if fn := c.method("internal/engine", "ControllerEngine", "StartWatches"); fn != nil {
 		var wl *ssa.Lookup
+		var wls []*ssa.Lookup
 		for _, a := range w.res[fn].Accesses {
 			if lk, ok := a.Instr.(*ssa.Lookup); ok && a.Field == "engine.controller.sources" && a.Weakest == locks.W && lk.CommaOk {
-				wl = lk
+				wls = append(wls, lk)
+				if wl == nil || lk.Pos() < wl.Pos() {
+					wl = lk // the decision; later lookups may only report
+				}
 			}
 		}
 		if wl == nil {
@@ -418,10 +422,15 @@ func c13(c *Ctx) {
 			c.R.Unknown(load.FuncName(fn)+": write-locked loop", c.pos(wl.Pos()), "the re-check is not in a loop")
 		} else {
 			var existsT, activeT []cfgx.Edge
-			for _, r := range *wl.Referrers() {
-				if ex, ok := r.(*ssa.Extract); ok && ex.Index == 1 {
-					t, _ := cfgx.CondEdges(ex)
-					existsT = append(existsT, t...)
+			for _, l := range wls {
+				if !loop[l.Block()] {
+					continue
+				}
+				for _, r := range *l.Referrers() {
+					if ex, ok := r.(*ssa.Extract); ok && ex.Index == 1 {
+						t, _ := cfgx.CondEdges(ex)
+						existsT = append(existsT, t...)
+					}
 				}
 			}
 			through := map[*ssa.BasicBlock]bool{}
